@@ -325,7 +325,66 @@ def run(repo, chk):
     chk.expect(len(guard) == 1, "R-C06-4", "a partial step is computed only when the condition became true since the last accepted step (so (level - threshold)/inflow >= 0)", loc(tl))
 
 
+    # ================================================================ rules added after the defect hunt (hunted/C06)
+    # ---------------------------------------------------------------- R-C06-1b "starting from init_level": both quantities the starting head is made of refresh it
+    tk = repo.cls(ELEM, "Tank")
+    setters = {n.name: n for n in tk.body if isinstance(n, ast.FunctionDef) and any(isinstance(d, ast.Attribute) and d.attr == "setter" for d in n.decorator_list)}
+    ini_ = [n for n in tk.body if isinstance(n, ast.FunctionDef) and n.name == "__init__"][0]
+    head0 = [a for a in walk(ini_) if isinstance(a, ast.Assign) and unparse(a.targets[0]) == "self._head"]
+    if not head0:
+        raise ExtractError("Tank.__init__: initial head not found")
+    reads = {x.attr.lstrip("_") for x in ast.walk(head0[0].value) if isinstance(x, ast.Attribute)}
+    for q in sorted(reads & {"elevation", "init_level"}):
+        st = setters.get(q)
+        ok_ = st is not None and any(isinstance(a, ast.Assign) and unparse(a.targets[0]) == "self._head" for a in walk(st))
+        chk.expect(ok_, "R-C06-1b", "Tank.%s setter refreshes the starting head (head = elevation + init_level)" % q, loc(ELEM, st) if st is not None else ELEM,
+                   "the tank's head at the start of a simulation is elevation + init_level; a setter that leaves _head alone makes the run start from a different level than init_level",
+                   expected="self._head = elevation + init_level", found="no assignment of _head")
+    chk.floor("R-C06-1b", 2)
+
+    # ---------------------------------------------------------------- R-C06-3b the closure the tank controls command is effective for every link kind they act on
+    # the closing controls write _internal_status = Closed; a link's effective status must then be Closed whatever the user status is
+    from .c02 import status_table
+    for cname in ("Pipe", "Pump", "Valve"):
+        tab = status_table(repo, cname)
+        bad_ = sorted(u for (u, i_), v in tab.items() if i_ == "Closed" and v != "Closed")
+        chk.expect(not bad_, "R-C06-3b", "%s.status is Closed whenever the tank-limit controls set _internal_status = Closed" % cname, loc(ELEM, repo.cls(ELEM, cname)),
+                   "_get_all_tank_controls closes links through _internal_status; %s.status ignores it for user status %s: such a link next to a tank keeps filling / draining it past its limits" % (cname, bad_),
+                   expected="Closed", found={u: tab[(u, "Closed")] for u in bad_})
+
+    # ---------------------------------------------------------------- R-C06-3c a link between two tanks: re-opening looks at the other tank's limit too
+    gat = repo.func(CORE, "WNTRSimulator._get_all_tank_controls")
+    txt_ = unparse(gat)
+    looks_at_other_tank = "isinstance(other_node, Tank)" in txt_ or "isinstance(other_node, wntr.network.Tank)" in txt_
+    chk.expect(looks_at_other_tank, "R-C06-3c", "the re-opening control of a link at a full / empty tank checks the limit of the tank at its other end", loc(gat),
+               "open_control_2 (priority high) re-opens the link when this tank's head allows flow towards the other node, without asking whether the other node is a tank at its own "
+               "limit; it out-ranks that tank's closing control (priority medium), so a pipe between two full tanks keeps filling one of them", expected="a condition on other_node when it is a Tank",
+               found="other_node is used only through its head")
+
+    # ---------------------------------------------------------------- R-C06-3d pumps are skipped by the tank controls because they cannot run backwards -- they must not
+    from ..peval import Evaluator as _Ev, Obj as _Obj, Unknown as _Unk, Raised as _Rs
+    for cname in ("_CloseHeadPumpCondition",):      # power pumps: the constant-power relation admits no reverse-flow solution (checked by experiment), not claimed
+        ev_fn = repo.func(CTRL, cname + ".evaluate")
+        chk.fn(ev_fn)
+        reads_flow = any(isinstance(x, ast.Attribute) and x.attr in ("flow", "_flow") for x in walk(ev_fn))
+        chk.expect(reads_flow, "R-C06-3d", "%s closes a pump that carries reverse flow" % cname, loc(ev_fn),
+                   "pumps that end (start) at a tank get no min-level (max-level) closing control 'because pumps have check valves', but the pump's own closing condition only "
+                   "compares the head difference with the shut-off head; for q < 0 the pump curve is flat at the shut-off head, the test never fires and the tank drains backwards "
+                   "through the open pump below its minimum level", expected="also true when pump.flow < -Qtol (as _CloseCVCondition)", found="no read of the pump's flow")
+
+    # ---------------------------------------------------------------- R-C06-5 volume curves are not silently clamped at their ends
+    uth = repo.func(HYD, "update_tank_heads")
+    interp_calls = [c for c in calls(uth) if (call_name(c) or "").endswith("interp")]
+    extended = any(k.arg in ("left", "right") for c in interp_calls for k in c.keywords) or not interp_calls
+    chk.expect(extended, "R-C06-5", "the level <-> volume conversion of a volume-curve tank is extended beyond the ends of the curve", loc(uth),
+               "np.interp clamps outside the tabulated range: when the trial volume leaves the curve the level stops at the curve's end, the partial step is computed from the clamped "
+               "level (back-track 0) and the stored volume no longer changes by net inflow x dt (88.96 m3 lost in one step in hunted/C06/defect_1.py)",
+               expected="extrapolation (or a refusal) outside the curve", found="%d plain np.interp call(s)" % len(interp_calls))
+
 WITNESSES = [
+    dict(name="elevation-setter-leaves-head", file=ELEM, old="        self._head = self._elevation + self._init_level  # like the init_level setter: the tank starts at init_level\n", new="", rule="R-C06-1b"),
+    dict(name="pipe-ignores-internal-closure", file=ELEM, old="        if self._internal_status == LinkStatus.Closed:\n            return LinkStatus.Closed\n        else:\n            return self._user_status\n\n    @property\n    def friction_factor",
+         new="        return self._user_status\n\n    @property\n    def friction_factor", rule="R-C06-3b"),
     dict(name="area-2", file=HYD, old="            delta_h = 4.0 * dV / (math.pi * tank.diameter ** 2)", new="            delta_h = 2.0 * dV / (math.pi * tank.diameter ** 2)", rule="R-C06-1"),
     dict(name="diameter-not-squared", file=HYD, old="(math.pi * tank.diameter ** 2)", new="(math.pi * tank.diameter)", rule="R-C06-1"),
     dict(name="dt-wrong-clock", file=HYD, old="    dt = wn.sim_time - wn._prev_sim_time   ", new="    dt = wn.options.time.hydraulic_timestep", rule="R-C06-1"),
